@@ -601,6 +601,39 @@ def chain_case(ctx, rng):
             ys.append(z)
         if ok and len(ys) >= 3:
             ctx.nontrivial(("chain", tag, tuple(plan), struct_sig(x)))
+        # the conjugate (or adjoint-free transpose) of the MERGED array must unmerge, level by
+        # level, to the conjugates of the intermediate arrays
+        if ok and len(ys) >= 3 and rng.random() < 0.5:
+            zc = ctx.call(lambda: ys[-1].conj())
+            if zc.ok:
+                cur = zc.value
+                for lvl in range(len(ys) - 2, -1, -1):
+                    shp = tuple(ix.size_total for ix in ys[lvl].indices)
+                    ob = ctx.call(lambda: cur.reshape(shp))
+                    oc = ctx.call(lambda: ys[lvl].conj())
+                    ctx.evaluated()
+                    ctx.count("array", "chain-conj-then-unmerge")
+                    if not ob.ok or not oc.ok:
+                        if ob.ok != oc.ok:
+                            ctx.violation("reshape-back-raises-after-conj", f"unmerging the conjugate of a {len(ys) - 1}-level merged array to {shp}: {(ob.exc if not ob.ok else oc.exc)!r}", wit)
+                        break
+                    if is_fermionic(x):
+                        # (for fermionic arrays conjugation carries a reversal sign that depends on
+                        # how the legs are grouped, so conj does not commute with merging sector
+                        # by sector: only the index structure and the magnitudes are compared)
+                        from symv.dense import embed as _embed
+
+                        m = None
+                        if tuple(index_sig(i) for i in oc.value.indices) != tuple(index_sig(i) for i in ob.value.indices):
+                            m = "indices differ"
+                        elif not np.array_equal(np.abs(_embed(oc.value)), np.abs(_embed(ob.value, oc.value.indices))):
+                            m = "magnitudes differ"
+                    else:
+                        m = same_array(oc.value, ob.value)
+                    if m:
+                        ctx.violation("reshape-roundtrip-after-conj", f"conj of the merged array unmerged to level {lvl} {shp} differs from the conj of that level's array: {m}", wit)
+                        break
+                    cur = ob.value
 
 
 def run(ctx):
